@@ -59,7 +59,7 @@ Proof. rewrite rest_slash_app. reflexivity. Qed.
 
 (* the header of pass 2 *)
 Lemma macro_header_pass2 N rest s n a l : is_hdr n = true -> macro s = n -> args s = a -> has_cur s = true ->
-  Q true N (BMacro n a l :: rest) s -> Q true N rest (macro_header pim s).
+  Q true N (BMacro n a l :: rest) s -> Q true N rest (macro_header pim s) /\ lox_toc (macro_header pim s) = lox_toc s.
 Proof. intros Hn Hmac Harg Hc (HP & Hok & Hcnt). pose proof HP as (HS & Hsb & Hpr & HI).
   unfold macro_header.
   pose proof (hdr_args_agree _ _ s a HP) as Hagree.
@@ -75,6 +75,7 @@ Proof. intros Hn Hmac Harg Hc (HP & Hok & Hcnt). pose proof HP as (HS & Hsb & Hp
     cbn [plus] in Hcnt.
     assert (E : err "arguments required" s1 ~~ s) by (eapply eqd_trans; [apply err_eqd|exact E1]).
     assert (Hk : KS (err "arguments required" s1) = KS s) by (unfold KS; rewrite (eqd_get toc _ _ (fun _ => eq_refl) E), (eqd_get lox_toc _ _ (fun _ => eq_refl) E); reflexivity).
+    split; [|apply (eqd_get lox_toc _ _ (fun _ => eq_refl) E)].
     split; [rewrite Hk; apply (P_eqd _ _ _ _ E HP)|]. rewrite (eqd_get lox_toc _ _ (fun _ => eq_refl) E), (eqd_get toc _ _ (fun _ => eq_refl) E). split; [exact Hok|exact Hcnt].
   - (* close what is open, then the header element *)
     set (nonum := flag "nonum" o).
@@ -152,6 +153,7 @@ Proof. intros Hn Hmac Harg Hc (HP & Hok & Hcnt). pose proof HP as (HS & Hsb & Hp
     set (sf := w c3 s8).
     assert (Ff : sf ~= s7) by (unfold sf; eapply eqf_trans; [apply w_eqf|exact F8]).
     assert (Hkf : KS sf = K3) by (unfold KS; rewrite (eqf_get toc _ _ (fun _ => eq_refl) Ff), (eqf_get lox_toc _ _ (fun _ => eq_refl) Ff), Ht7, Hl7; reflexivity).
+    split; [|rewrite (eqf_get lox_toc _ _ (fun _ => eq_refl) Ff); exact Hl7].
     split; [rewrite Hkf|].
     + split; [apply (Side_eqf _ _ _ Ff HS7)|]. split; [rewrite (eqf_get sblock _ _ (fun _ => eq_refl) Ff); exact Hsb7|].
       split; [rewrite (eqf_get process _ _ (fun _ => eq_refl) Ff); exact Hpr7|]. intros _.
@@ -164,15 +166,17 @@ Proof. intros Hn Hmac Harg Hc (HP & Hok & Hcnt). pose proof HP as (HS & Hsb & Hp
 Qed.
 
 (* the header of pass 1: counters, label, the entry for the tables of contents *)
-Lemma header_ref_shape K s : Side K s -> exists k, header_reference s = R "#s" ++ dec k.
+Lemma header_ref_shape K s : Side K s -> header_reference s = R "#s" ++ dec (hcount (toc s)).
 Proof. intro HS. unfold header_reference. rewrite (sd_fmt _ _ HS). unfold X.header_reference.
   assert (Hmulti : X.multi s = false) by (unfold X.multi, X.epub; rewrite (sd_mode _ _ HS); reflexivity).
   assert (Hcust : X.custom_ids s = false) by (unfold X.custom_ids; rewrite (sd_pa _ _ HS); reflexivity).
   rewrite Hcust, Hmulti. cbn [negb]. unfold X.gen_ref_s. rewrite Hmulti. cbn [negb].
-  destruct (_ || _); eexists; reflexivity. Qed.
+  destruct (_ || _); reflexivity. Qed.
 
 Lemma macro_header_pass1 N rest s n a l : is_hdr n = true -> macro s = n -> args s = a -> has_cur s = true ->
-  Q false N (BMacro n a l :: rest) s -> Q false N rest (macro_header pim s).
+  Q false N (BMacro n a l :: rest) s -> Q false N rest (macro_header pim s) /\
+  (lox_toc (macro_header pim s) = lox_toc s \/
+   exists e, lox_toc (macro_header pim s) = lox_toc s ++ [e] /\ lx_count e = S (List.length (lox_toc s)) /\ lx_ref e = R "#s" ++ dec (lx_count e)).
 Proof. intros Hn Hmac Harg Hc (HP & Hok & Hlen & Hcnt). pose proof HP as (HS & Hsb & Hpr & _).
   unfold macro_header.
   pose proof (hdr_args_agree _ _ s a HP) as Hagree.
@@ -185,6 +189,7 @@ Proof. intros Hn Hmac Harg Hc (HP & Hok & Hlen & Hcnt). pose proof HP as (HS & H
   destruct (po_args o) as [|a0 al] eqn:Epo.
   - cbn [plus] in Hcnt.
     assert (Hk : KS s1 = KS s) by (unfold KS; rewrite (eqd_get toc _ _ (fun _ => eq_refl) E1), (eqd_get lox_toc _ _ (fun _ => eq_refl) E1); reflexivity).
+    split; [|left; apply (eqd_get lox_toc _ _ (fun _ => eq_refl) E1)].
     split; [rewrite Hk; exact HP1|]. rewrite (eqd_get lox_toc _ _ (fun _ => eq_refl) E1), (eqd_get toc _ _ (fun _ => eq_refl) E1). split; [exact Hok|split; [exact Hlen|exact Hcnt]].
   - set (nonum := flag "nonum" o).
     pose proof HP1 as (HS1 & Hsb1 & _ & _).
@@ -222,7 +227,7 @@ Proof. intros Hn Hmac Harg Hc (HP & Hok & Hlen & Hcnt). pose proof HP as (HS & H
             let s9 := s8 <| lox_toc ::= fun l => l ++ [e] |> in
             if str_eqb n (R "Pt") || str_eqb n (R "Ch") then s9 <| lox_nav ::= fun l => l ++ [e] |> else s9).
     clearbody s6. cbv zeta.
-    destruct (header_ref_shape _ s6 (proj1 HP6)) as [k Eref].
+    pose proof (header_ref_shape _ s6 (proj1 HP6)) as Eref.
     set (ref := header_reference s6) in *. set (num := header_num (toc s6) n nonum).
     set (s7 := match id with [] => s6 | _ => store_id id (mkId ref num 5) s6 end).
     assert (F7 : s7 ~= s6) by (unfold s7; destruct id; [apply eqf_refl|apply store_id_eqf]).
@@ -244,6 +249,9 @@ Proof. intros Hn Hmac Harg Hc (HP & Hok & Hlen & Hcnt). pose proof HP as (HS & H
       (split; [reflexivity|split; [reflexivity|split; [reflexivity|split; [reflexivity|]]]]);
       (apply (Side_change _ (T3, lox_toc s ++ [e]) s8 _ HS8); try reflexivity; cbn; [exact (sd_toc _ _ HS8)|rewrite (sd_lox _ _ HS8); reflexivity]). }
     fold sf. destruct Htf as (Htf & Hlf & Hsbf & Hprf & HSf). clearbody sf.
+    assert (Hcount_e : lx_count e = S (List.length (lox_toc s)) /\ lx_ref e = R "#s" ++ dec (lx_count e)).
+    { cbn [lx_count lx_ref e]. rewrite Eref, (eqf_get toc _ _ (fun _ => eq_refl) F86). destruct (P_toc _ _ _ HP6) as [Ht6 _]. cbn [fst] in Ht6. rewrite Ht6, Hh3, Hlen. split; reflexivity. }
+    split; [|right; exists e; split; [exact Hlf|exact Hcount_e]].
     split; [|rewrite Hlf, Htf; split; [apply Forall_app; split; [exact Hok|constructor; [exact Hoke|constructor]]|]].
     + unfold KS. rewrite Htf, Hlf. split; [exact HSf|]. split; [rewrite Hsbf, (eqf_get sblock _ _ (fun _ => eq_refl) F86); apply HP6|].
       split; [rewrite Hprf, (eqf_get process _ _ (fun _ => eq_refl) F86); apply HP6|discriminate].
@@ -257,11 +265,11 @@ Proof. intro Hmini. unfold X.toc_string. destruct (lox_toc s) as [|e0 l0]; [appl
   destruct (opt "title" opts) as [t0|]; [|reflexivity].
   pose proof (render_text_eqd t0 s) as H. destruct (render_text t0 s) as [x s1]. exact H. Qed.
 
-Lemma macro_tc_Q p N rest s a l : args s = a -> tc_no_mini a -> Q p N (BMacro (R "Tc") a l :: rest) s -> Q p N rest (macro_tc s).
+Lemma macro_tc_Q p N rest s a l : args s = a -> tc_no_mini a -> Q p N (BMacro (R "Tc") a l :: rest) s -> Q p N rest (macro_tc s) /\ lox_toc (macro_tc s) = lox_toc s.
 Proof. intros Harg Hnm HQ. pose proof HQ as (HP & Hok & Hcnt). pose proof HP as (HS & Hsb & Hpr & HI).
   assert (Hcnt' : if p then (hcount (toc s) + hdr_count rest)%nat = List.length (lox_toc s)
                   else List.length (lox_toc s) = hcount (toc s) /\ (hcount (toc s) + hdr_count rest)%nat = N) by (rewrite hdr_count_cons in Hcnt; exact Hcnt).
-  unfold macro_tc. rewrite Hpr. destruct p; cbn [negb]; [|split; [exact HP|split; [exact Hok|exact Hcnt']]].
+  unfold macro_tc. rewrite Hpr. destruct p; cbn [negb]; [|split; [split; [exact HP|split; [exact Hok|exact Hcnt']]|reflexivity]].
   rewrite (sd_fmt _ _ HS).
   destruct (close_unclosed_inline_P _ _ HP) as [HP1 Hsi1].
   assert (Ha1 : args (close_unclosed_inline s) = a) by (unfold close_unclosed_inline; destruct (sinline s); exact Harg).
@@ -302,6 +310,7 @@ Proof. intros Harg Hnm HQ. pose proof HQ as (HP & Hok & Hcnt). pose proof HP as 
   pose proof (P_eqd _ _ _ _ Ex HP3) as HPx. pose proof HPx as (HSx & Hsbx & Hprx & HIx). specialize (HIx eq_refl).
   assert (Ff : wl c sx ~= s3) by (eapply eqf_trans; [apply wl_eqf|apply eqd_eqf; exact Ex]).
   assert (Hk : KS (wl c sx) = KS s) by (unfold KS; rewrite (eqf_get toc _ _ (fun _ => eq_refl) Ff), (eqf_get lox_toc _ _ (fun _ => eq_refl) Ff), Ht3, Hl3; reflexivity).
+  split; [|rewrite (eqf_get lox_toc _ _ (fun _ => eq_refl) Ff); exact Hl3].
   split; [rewrite Hk|rewrite (eqf_get lox_toc _ _ (fun _ => eq_refl) Ff), (eqf_get toc _ _ (fun _ => eq_refl) Ff), Hl3, Ht3; split; [exact Hok|exact Hcnt']].
   split; [apply (Side_eqf _ _ _ Ff HS3)|]. split; [rewrite (eqf_get sblock _ _ (fun _ => eq_refl) Ff); exact Hsb3|].
   split; [rewrite (eqf_get process _ _ (fun _ => eq_refl) Ff); exact Hpr3|]. intros _.
@@ -319,7 +328,10 @@ Proof. destruct b as [n a l|t l]; [|reflexivity]. cbn [in_frag hdr_block]. intro
 Lemma Q_same p N rest s s' : KS s' = KS s -> P (KS s) p s' -> Q p N rest s -> Q p N rest s'.
 Proof. intros Hk HP' (_ & Hok & Hcnt). unfold KS in Hk. injection Hk as Ht Hl. split; [unfold KS; rewrite Ht, Hl; exact HP'|]. rewrite Hl, Ht. split; assumption. Qed.
 
-Lemma step_fragH pb p N b rest c s : in_fragH b -> Q p N (b :: rest) s -> Q p N rest (snd (step pb b (c, s))).
+Definition grows (l l' : list lox) : Prop :=
+  l' = l \/ exists e, l' = l ++ [e] /\ lx_count e = S (List.length l) /\ lx_ref e = R "#s" ++ dec (lx_count e).
+Lemma step_fragH pb p N b rest c s : in_fragH b -> Q p N (b :: rest) s ->
+  Q p N rest (snd (step pb b (c, s))) /\ grows (lox_toc s) (lox_toc (snd (step pb b (c, s)))).
 Proof. intros Hb HQ. destruct Hb as [Hb | [(n & a & l & -> & Hn) | (a & l & -> & Hnm)]].
   - (* not a header: counters and entries untouched *)
     pose proof HQ as (HP & Hok & Hcnt).
@@ -327,6 +339,7 @@ Proof. intros Hb HQ. destruct Hb as [Hb | [(n & a & l & -> & Hn) | (a & l & -> &
     destruct (P_toc _ _ _ HP') as [Ht Hl]. cbn [fst snd KS] in Ht, Hl.
     assert (Hk : KS (snd (step pb b (c, s))) = KS s) by (unfold KS; rewrite Ht, Hl; reflexivity).
     rewrite hdr_count_cons, (in_frag_not_hdr b Hb) in Hcnt. cbn [plus] in Hcnt.
+    split; [|left; exact Hl].
     split; [rewrite Hk; exact HP'|]. rewrite Hl, Ht. split; assumption.
   - (* a header *)
     unfold step. cbv zeta.
@@ -341,12 +354,15 @@ Proof. intros Hb HQ. destruct Hb as [Hb | [(n & a & l & -> & Hn) | (a & l & -> &
     { unfold is_hdr in Hn. repeat (apply orb_true_iff in Hn as [Hn|Hn]); apply FuelProofs.str_eqb_eq in Hn; subst n; split; reflexivity. }
     destruct Ecb as [-> ->]. cbn [snd]. rewrite Ebf.
     assert (Hmac : macro s0 = n) by reflexivity. assert (Harg : args s0 = a) by reflexivity.
-    assert (HQ1 : Q p N rest (macro_header pim s0)).
-    { destruct p; [apply (macro_header_pass2 N rest s0 n a l Hn Hmac Harg Hc0 HQ0)|apply (macro_header_pass1 N rest s0 n a l Hn Hmac Harg Hc0 HQ0)]. }
+    assert (HQ1 : Q p N rest (macro_header pim s0) /\ grows (lox_toc s) (lox_toc (macro_header pim s0))).
+    { destruct p; [destruct (macro_header_pass2 N rest s0 n a l Hn Hmac Harg Hc0 HQ0) as [H1 H2]; split; [exact H1|left; exact H2]|].
+      destruct (macro_header_pass1 N rest s0 n a l Hn Hmac Harg Hc0 HQ0) as [H1 H2]. split; [exact H1|exact H2]. }
+    destruct HQ1 as [HQ1 Hg].
     clearbody s0. set (s1 := macro_header pim s0) in *. clearbody s1.
     pose proof HQ1 as (HP1 & _).
     assert (Hk : KS (after_handler n s1) = KS s1) by (unfold KS, after_handler; destruct (elided s1); [reflexivity|]; destruct (is_control_name n); reflexivity).
-    apply (Q_same p N rest s1); [exact Hk|apply P_after_handler; exact HP1|exact HQ1].
+    split; [apply (Q_same p N rest s1); [exact Hk|apply P_after_handler; exact HP1|exact HQ1]|].
+    cbn [snd]. injection Hk as _ Hl1. rewrite Hl1. exact Hg.
   - (* a table of contents *)
     unfold step. cbv zeta.
     pose proof HQ as (HP & Hok & Hcnt).
@@ -358,17 +374,28 @@ Proof. intros Hb HQ. destruct Hb as [Hb | [(n & a & l & -> & Hn) | (a & l & -> &
     assert (Ebf : bf_check (R "Tc") s0 = s0) by (unfold bf_check; rewrite (sd_bf _ _ HS0); reflexivity).
     change (control_builtin pb (R "Tc")) with (@None (cst -> cst)). change (builtin (R "Tc")) with (Some macro_tc). cbn [snd]. rewrite Ebf.
     assert (Harg : args s0 = a) by reflexivity.
-    pose proof (macro_tc_Q p N rest s0 a l Harg Hnm HQ0) as HQ1.
+    destruct (macro_tc_Q p N rest s0 a l Harg Hnm HQ0) as [HQ1 Hl01]. change (lox_toc s0) with (lox_toc s) in Hl01.
     clearbody s0. set (s1 := macro_tc s0) in *. clearbody s1.
     pose proof HQ1 as (HP1 & _).
     assert (Hk : KS (after_handler (R "Tc") s1) = KS s1) by (unfold KS, after_handler; destruct (elided s1); reflexivity).
-    apply (Q_same p N rest s1); [exact Hk|apply P_after_handler; exact HP1|exact HQ1].
+    split; [apply (Q_same p N rest s1); [exact Hk|apply P_after_handler; exact HP1|exact HQ1]|].
+    left. cbn [snd]. injection Hk as _ Hl1. exact (eq_trans Hl1 Hl01).
 Qed.
 
-Theorem fragH_invariant p N : forall fuel bs cs, Forall in_fragH bs -> Q p N bs (snd cs) -> Q p N [] (snd (run_blocks (S fuel) bs cs)).
-Proof. intros f bs cs Hbs. cbn [run_blocks]. revert cs. induction Hbs as [|b rest Hb Hrest IHb]; intros cs HQ; [exact HQ|].
-  cbn [walk]. destruct cs as [c s]. pose proof (step_fragH (run_blocks f) p N b rest c s Hb HQ) as H1.
-  rewrite (sd_np _ _ (proj1 (proj1 H1))). apply IHb. exact H1. Qed.
+(* the entries are numbered from 1 in the order of recording and refer to the anchor of their number *)
+Definition refs_ok (l : list lox) : Prop := forall i e, nth_error l i = Some e -> lx_count e = S i /\ lx_ref e = R "#s" ++ dec (S i).
+Lemma refs_ok_grows l l' : refs_ok l -> grows l l' -> refs_ok l'.
+Proof. intros Hr [-> | (e & -> & Hc & Hrf)]; [exact Hr|]. intros i x Hx.
+  destruct (Nat.lt_ge_cases i (List.length l)) as [Hlt|Hge].
+  - rewrite nth_error_app1 in Hx by exact Hlt. exact (Hr i x Hx).
+  - rewrite nth_error_app2 in Hx by exact Hge. destruct (i - List.length l)%nat as [|k] eqn:Ek; [|destruct k; discriminate].
+    cbn in Hx. injection Hx as <-. assert (i = List.length l) by lia. subst i. rewrite Hrf, Hc. split; reflexivity. Qed.
+Theorem fragH_invariant p N : forall fuel bs cs, Forall in_fragH bs -> Q p N bs (snd cs) -> refs_ok (lox_toc (snd cs)) ->
+  Q p N [] (snd (run_blocks (S fuel) bs cs)) /\ refs_ok (lox_toc (snd (run_blocks (S fuel) bs cs))).
+Proof. intros f bs cs Hbs. cbn [run_blocks]. revert cs. induction Hbs as [|b rest Hb Hrest IHb]; intros cs HQ Hr; [split; assumption|].
+  cbn [walk]. destruct cs as [c s]. destruct (step_fragH (run_blocks f) p N b rest c s Hb HQ) as [H1 Hg].
+  rewrite (sd_np _ _ (proj1 (proj1 H1))). apply IHb; [exact H1|]. cbn [snd] in *.
+  apply (refs_ok_grows _ _ Hr Hg). Qed.
 
 (* ---------- the two passes ---------- *)
 Lemma Q_start wd main bs : Q false (hdr_count bs) bs (start_st (R "xhtml") 0 wd main).
@@ -386,22 +413,31 @@ Proof. intros ((HS & _) & Hok & Hlen & Hcnt) HN.
   - change (lox_toc (reset s)) with (lox_toc s). change (hcount (toc (reset s))) with 0%nat. cbn [plus]. unfold hdr_count in *. cbn [filter List.length] in Hcnt. clear -Hlen Hcnt HN. lia.
 Qed.
 
+Lemma refs_ok_nil : refs_ok []. Proof. intros [|i] e H; discriminate. Qed.
 Theorem C02_headers_balanced fuel wd main bs : Forall in_fragH bs ->
   let s := snd (compile (S fuel) (R "xhtml") 0 wd main bs) in
   panicked s = None /\
-  run (flat (wout s)) (Txt, []) = (Txt, []) /\ In (curfile s, flat (wout s)) (files s).
+  run (flat (wout s)) (Txt, []) = (Txt, []) /\ In (curfile s, flat (wout s)) (files s) /\
+  Forall entry_ok (lox_toc s) /\ refs_ok (lox_toc s).
 Proof. intros Hbs. unfold compile.
-  pose proof (fragH_invariant false (hdr_count bs) fuel bs (start_ctl wd main, start_st (R "xhtml") 0 wd main) Hbs (Q_start wd main bs)) as H1.
-  destruct (run_blocks (S fuel) bs (start_ctl wd main, start_st (R "xhtml") 0 wd main)) as [c1 s1]. cbn [snd] in H1.
+  pose proof (fragH_invariant false (hdr_count bs) fuel bs (start_ctl wd main, start_st (R "xhtml") 0 wd main) Hbs (Q_start wd main bs) refs_ok_nil) as [H1 R1].
+  destruct (run_blocks (S fuel) bs (start_ctl wd main, start_st (R "xhtml") 0 wd main)) as [c1 s1]. cbn [snd] in H1, R1.
   rewrite (sd_np _ _ (proj1 (proj1 H1))).
-  pose proof (fragH_invariant true (hdr_count bs) fuel bs (set_budget 0 false c1, exp_reset (reset s1)) Hbs (Q_reset _ bs s1 H1 eq_refl)) as H2.
-  destruct (run_blocks (S fuel) bs (set_budget 0 false c1, exp_reset (reset s1))) as [c2 s2]. cbn [snd] in H2.
-  destruct H2 as (H2 & _).
+  assert (Elr : lox_toc (exp_reset (reset s1)) = lox_toc s1).
+  { unfold exp_reset. assert (Hf : fmt (reset s1) = FX) by (unfold fmt; change (format (reset s1)) with (format s1); exact (sd_fmt _ _ (proj1 (proj1 H1)))).
+    assert (Hm : mode (reset s1) = 0%nat) by exact (sd_mode _ _ (proj1 (proj1 H1))). rewrite Hf, Hm. reflexivity. }
+  assert (R1' : refs_ok (lox_toc (snd (set_budget 0 false c1, exp_reset (reset s1))))) by (cbn [snd]; rewrite Elr; exact R1).
+  destruct (fragH_invariant true (hdr_count bs) fuel bs (set_budget 0 false c1, exp_reset (reset s1)) Hbs (Q_reset _ bs s1 H1 eq_refl) R1') as [H2' R2].
+  clear R1' Elr.
+  destruct (run_blocks (S fuel) bs (set_budget 0 false c1, exp_reset (reset s1))) as [c2 s2]. cbn [snd] in H2', R2.
+  destruct H2' as (H2 & Hok2 & _).
   rewrite (sd_np _ _ (proj1 H2)).
   destruct (eof_sweep_P _ s2 H2) as (HS & HI & Hp & Hsb). cbv zeta in HS, HI, Hp, Hsb. set (s7 := eof_sweep s2) in *. clearbody s7.
   assert (Epost : exp_post s7 = s7) by (unfold exp_post; rewrite (sd_fmt _ _ HS), (sd_mode _ _ HS); reflexivity). rewrite Epost.
   cbn [snd]. change (wout (s7 <| files ::= fun l => l ++ [(curfile s7, flat (wout s7))] |>)) with (wout s7).
-  split; [exact (sd_np _ _ HS)|]. split.
+  change (lox_toc (s7 <| files ::= fun l => l ++ [(curfile s7, flat (wout s7))] |>)) with (lox_toc s7).
+  assert (El7 : lox_toc s7 = lox_toc s2) by exact (sd_lox _ _ HS).
+  split; [exact (sd_np _ _ HS)|]. split; [|split; [|rewrite El7; split; [exact Hok2|exact R2]]].
   - destruct HI as [A B C]. unfold out in A. rewrite (B Hp), flat_nil, app_nil_r, (elems_closed _ Hsb Hp) in A. exact A.
   - change (files (s7 <| files ::= fun l => l ++ [(curfile s7, flat (wout s7))] |>)) with (files s7 ++ [(curfile s7, flat (wout s7))]).
     apply in_or_app. right. left. reflexivity.
